@@ -46,6 +46,8 @@ def _status(outs):
 def project(kind, ins, outs):
     if outs and outs[0] == "crash":
         return ["crash"]
+    if "BYP" in outs:           # controlled completion after a bypassed probe: for the oracle only
+        return outs[:outs.index("BYP")]
     return outs
 
 
